@@ -1104,3 +1104,15 @@ Proof.
   intros x Hx. eapply bb_ok_chg; [exact Hc|by apply xpins_sub|by apply xnets_sub|]. rewrite (bb_ok_ext (r_g st) g' x St Sf So).
   rewrite Forall_forall in Qo. by apply Qo.
 Qed.
+
+
+(* everything C02_read_denotes_full claims about the returned circuit, for every successful read *)
+Theorem read_denotes_of_success rsv bbs m C : in_subset bbs m = true → (list_to_set (module_ids m) : gset string) ⊆ rsv → read rsv bbs m = Ok C →
+  c_name C = m_name m ∧
+  c_bbs C = list_to_map ((λ x : string * bbdef * list (string * option cond), (x.1.1, x.1.2)) <$> bb_insts bbs m) ∧
+  (∀ x, x ∈ bb_insts bbs m → bb_ok (c_g C) x = true) ∧
+  (∀ w, consistent (c_g C) w → ∃ x, sat_module m w x) ∧
+  (∀ v x, sat_module m v x → ∃ w, consistent (c_g C) w ∧ ∀ n, n ∈ used_nets m → w n = v n).
+Proof.
+  intros Hs Hids H. destruct (read_denotes rsv bbs m C Hs Hids H) as (Hn & _ & _ & Hsd & Hcv). destruct (read_bb_pins rsv bbs m C Hs Hids H) as [Hb Hp]. done.
+Qed.
